@@ -15,7 +15,7 @@ type test reads `field.repeated or field.type != str`, so a `repeated string` is
 
 Represented: the whole of `enforce_valid_method_settings` (every branch, in the code's order, with the
 dict-overwrite semantics of `all_errors`); `all_method_settings` as far as the templates read it
-(`generate`: one validation per sub-package view that renders a service, each against the view's own methods;
+(`generate`: one validation per sub-package view that renders a service, each against the whole API's methods;
 `settingsFor`: the dict comprehension keyed by selector; `importsUuid`: the `{% if … |list %}` gate of
 `import uuid` in client.py.j2 / async_client.py.j2); the macro (both branches, the loop, the lookup by
 `method.meta.address.proto`); the statement order of the sync and asyncio method bodies; the four call
@@ -131,13 +131,16 @@ def viewOf (api : List Method) (sels : List String) : List Method := api.filter 
 
 /-- `Generator._render_template` renders the per-service templates of a service with `api :=` the view of the
 sub-package the service lives in (the sub-packages first, then the services of the view's own level); each of
-these views evaluates its OWN cached property `all_method_settings`, i.e. `enforce_valid_method_settings`
-against its own `all_methods`; the first `MethodSettingsError` aborts the generation.  `views`: the views
-that own at least one service, in rendering order.  (An API without sub-packages has the single view `api`.) -/
-def generate (views : List (List Method)) (ss : List Settings) : Errors :=
+these views evaluates its OWN cached property `all_method_settings`, which — since the `fix:` commit cb5c413 —
+runs `enforce_valid_method_settings` on `dataclasses.replace(self, subpackage_view=())`, i.e. against the
+`all_methods` of the WHOLE API (before, a view validated against its own methods and reported every selector
+of a service elsewhere as "Method was not found."); the first `MethodSettingsError` aborts the generation.
+`views`: what the views that own at least one service render (`viewOf`), in rendering order.  (An API without
+sub-packages has the single view `api`.)  No view that renders a service: nothing reads the settings. -/
+def generate (api : List Method) (views : List (List Method)) (ss : List Settings) : Errors :=
   match views with
   | [] => []
-  | v :: vs => let e := validate v ss; if e.isEmpty then generate vs ss else e
+  | _ :: vs => let e := validate api ss; if e.isEmpty then generate api vs ss else e
 
 /-! ### Population at call time -/
 
